@@ -51,7 +51,7 @@ def run(ctx, col, tier):
     p = repo.get_def(f"{IO}.parse_swc")
     w, loop, handle = file_loop(ctx, p)
     from .c01 import r_capture
-    r_capture(ctx, col, "R-CAPTURE")
+    col.guard(r_capture, ctx, col, "R-CAPTURE")
 
     # ---- R-EXC: explicit raise sites + the decode error of the iteration
     raises = [n for n in own_nodes(p) if isinstance(n, ast.Raise)]
